@@ -1,15 +1,30 @@
 from pyvc.runner import Prop, Fn, Lem, Ground, Native
-from props.rewrite_common import ASSUMPTIONS
+from props.rewrite_common import ASSUMPTIONS, SEM_ASSUMPTIONS, SEM_LEMMAS, C09_LEMMAS
 
+_R = 'hpl.rewrite.'
 PROP = Prop(
     'C10',
-    modules=[],
-    tasks=[],
-    bounded=[Native('bounded.rewrite_native.refactor_semantics')],
-    level='exploration',
-    explanation='BOUNDED ONLY at this commit: the real function(s) compared with the reference semantics on the expression '
-                'corpus x a grid of valuations (labelled bounded, nothing counted as proved); contracts for the rewriting '
-                'helpers are being added function by function.',
-    assumptions=ASSUMPTIONS,
-    trusted_base=['bounded.evaluator reference semantics', 'CPython'],
+    modules=['contracts.rewrite_c10'],
+    tasks=[
+        *[Lem(l) for l in SEM_LEMMAS],
+        *[Lem(l) for l in C09_LEMMAS],
+        Fn(_R + 'empty_test', safety_tag='C14'),
+        Fn(_R + '_refactor_ref_expr', safety_tag='C14'),
+        Fn(_R + '_split_ref_operator', safety_tag='C14'),
+        Fn(_R + '_split_ref_negation', safety_tag='C14'),
+        Fn(_R + '_split_ref_quantifier', safety_tag='C14'),
+    ],
+    bounded=[Native('bounded.rewrite_native.refactor_semantics'),
+             Native('bounded.rewrite_native.sem_axioms_hold')],
+    level='other',
+    dep_tags=['C14'],
+    explanation='PROVED for every well-typed expression with hygienic quantifiers (unbounded): _refactor_ref_expr, '
+                '_split_ref_operator, _split_ref_negation, _split_ref_quantifier (incl. the inline De Morgan step and the '
+                'empty-domain guard) satisfy "(f1 and f2) == f on every valuation" (truth-value semantics specs/sem.py), '
+                '"f1 contains no reference to A" and "when f does not mention A the result is f itself paired with True". '
+                'Not proved: the clause about variables bound in f (bounded), the predicate-level wrapper and the public '
+                'dispatch (bounded), absence of TypeError/HplSanityError from the quantifier constructor (C14, bounded), '
+                'the semantic axioms A-SEM. BOUNDED stand-in kept for all clauses.',
+    assumptions=ASSUMPTIONS + SEM_ASSUMPTIONS,
+    trusted_base=['z3 5.1.0', 'cvc5 1.0.3', 'pyvc symbolic executor', 'bounded.evaluator reference semantics', 'CPython'],
 )
